@@ -393,6 +393,8 @@ def run_property(prop, tier, jobs, keep):
         r = results[h.key]
         if r.status in ("pass", "fail") and not h.expect_fail:
             for k, v in r.covers.items():
+                if not k.startswith(prop + "."):
+                    continue   # witness of a family reused from another property: judged in that property's own check
                 seen.add(k)
                 if v == "SATISFIED":
                     sat.add(k)
